@@ -22,7 +22,7 @@ def build():
             "thorough_cmd": "bin/check %s --tier thorough" % pid,
             "evidence_file": "/verif/evidence/%s.json" % pid,
             "replay_cmd_template": "bin/check %s --replay {path}" % pid,
-            "engine": {"K": "kani-scratch", "T": "z3-trace-validation", "KT": "kani-scratch + z3-trace-validation", "KM": "kani-scratch + z3-module-validation"}[pr["engines"]],
+            "engine": {"K": "kani-scratch", "T": "z3-trace-validation", "KT": "kani-scratch + z3-trace-validation", "M": "z3-module-validation", "KM": "kani-scratch + z3-module-validation", "KTM": "kani-scratch + z3-trace-validation + z3-module-validation"}[pr["engines"]],
             "level_claimed": {
                 "category": pr["level"],
                 "text": pr["text"],
